@@ -3,7 +3,7 @@ C24 - sequential files return what was written.
 
 E1 (exhaustive products of fixed item alphabets, every case executed through BASIC statements on a
 scratch native mount; the host file is read back as well):
-  write-input   all item sequences up to length 2 (quick) / 3 (thorough) over 8 strings + 9 numbers,
+  write-input   all item sequences up to length 2 (quick) / 3 (thorough) over 8 strings + 10 numbers,
                 x {one WRITE# statement, one per item} x every cut into <=3 OPEN sessions
                 (OUTPUT then APPEND, incl. an empty first session) x soft_linefeed off/on,
                 read back with INPUT#, EOF before every item and after the last, LOF against the
@@ -176,7 +176,6 @@ def run_write_input(part, w, items, shape, cuts, case, tag=None):
         else:
             w.must(b'W%d%s=%s' % (i, it[1], it[2]))
             names.append(b'W%d%s' % (i, it[1]))
-    written = {i: s.get_variable(names[i].decode()) for i in range(k) if items[i][0] == 'n'}
     pos = 0
     prev_host = None
     for si, n in enumerate(cuts):
@@ -213,9 +212,6 @@ def run_write_input(part, w, items, shape, cuts, case, tag=None):
                       'before APPEND %r, after %r' % (prev_host[-40:], host[:80]), case)
         prev_host = host
     host = prev_host
-    # sanity of the written number texts: isolate them from a single-item file is not possible here,
-    # so the texts are taken from a dedicated rendering (STR$-free): WRITE# of the number alone
-    # (cached per worker)
     # read back
     r = w.run(b'OPEN "%s" FOR INPUT AS 1' % FNAME.encode())
     if r.exc is not None or r.err is not None:
@@ -295,7 +291,11 @@ def _input_after_255(part, w, items, i, host, case):
     if ok:
         got = s.get_variable(rn.decode())
         ok = (bytes(got) == it[1]) if it[0] == 's' else (got == w.val_of(w.numtext(it), it[1]))
-    if not ok:
+    if not ok and r.err is None and _lf_class(it, w.sl) and \
+            bytes(got) == it[1].replace(b'\r\n', b'\r').replace(b'\n', b'\r'):
+        _viol(part, w, 'input/string-with-LF/soft-linefeed-off',
+              'wrote %r, INPUT# returned %r' % (it[1][:40], bytes(got)[:40]), case)
+    elif not ok:
         _viol(part, w, 'input/item-after-255-char-string',
               'the item written after a 255-character string is not read back (INPUT# stops after 255 '
               'characters and leaves the closing quote in the stream): wrote %r, err %r' % (it[-1][:20], r.err),
@@ -387,11 +387,6 @@ def work_write_bytes(shard):
     finally:
         w.done()
     return part
-
-
-# replace the generic string class in keys by the byte for the bytes leg
-def _bytes_kind(s):
-    return _kind(('s', s))
 
 
 def run_print_line(part, w, lines, cuts, case):
